@@ -8,7 +8,7 @@ from itertools import product
 
 from .. import core, lib, exact as X, alphabet as A
 from ..core import Family
-from ..icheck import eval_inter
+from ..icheck import eval_inter, eval_moved_inter
 from .C02 import base_features
 
 EXTRA_HASHSEEDS = (1,)       # thorough tier re-runs the quick space under a second pinned hash seed
@@ -195,6 +195,11 @@ def eval_generic(fam, scene):
     return cell, viols
 
 
+class MovedPairs(BodyPairs):
+    def eval(self, scene):
+        return eval_moved_inter('C03', self.name, scene[0], scene[1])
+
+
 class Generic(Family):
     scene_timeout = 300.0
 
@@ -222,6 +227,10 @@ class Generic(Family):
 
 def families(tier):
     fams = A.with_int_mode(_families(tier), tier)
+    mb = A.QUICK_BODIES if tier == 'quick' else A.QUICK_BODIES + ['square', 'pyramid', 'prism']
+    mv = MovedPairs('translate', A.P1, [(x, y) for x in mb for y in mb], {'window': window(-1, 1, 1)[::3] if tier == 'quick' else window(-1, 1, 1)})
+    mv.name = 'moved/P1'
+    fams.append(mv)
     if tier == 'quick':
         fams.append(Generic(['tetrahedron', 'box', 'triangle', 'square'], range(4), range(4)))
     else:
@@ -285,4 +294,6 @@ def replay(family, scene):
     if sc[0] == 'generic':
         return eval_generic(family, sc[1:])[1]
     a, b = sc
+    if family.startswith('moved'):
+        return eval_moved_inter('C03', family, a, b)[1]
     return eval_inter('C03', family, a, b, forms=('fn',), measures=True)[1]
